@@ -123,7 +123,7 @@ Ops!(
     b"vwrw"       , [0x63              ], X, X86_ONLY;
 ]
 "bextr" = [
-    b"r*v*id"     , [0x10, 0x10        ], X, XOP_OP | AUTO_REXW, TBM;
+    b"r*v*id"     , [0x0A, 0x10        ], X, XOP_OP | AUTO_REXW, TBM;
     b"r*v*r*"     , [0x02, 0xF7        ], X, VEX_OP | AUTO_REXW | ENC_MR, BMI1;
 ]
 "blcfill" = [
@@ -1218,10 +1218,10 @@ Ops!(
     b"rw"         , [0x0F, 0x00        ], 3;
 ]
 "lwpins" = [
-    b"r*v*id"     , [0x10, 0x12        ], 0, XOP_OP | AUTO_REXW | ENC_VM, AMD;
+    b"r*v*id"     , [0x0A, 0x12        ], 0, XOP_OP | AUTO_REXW | ENC_VM, AMD;
 ]
 "lwpval" = [
-    b"r*v*id"     , [0x10, 0x12        ], 1, XOP_OP | AUTO_REXW | ENC_VM, AMD;
+    b"r*v*id"     , [0x0A, 0x12        ], 1, XOP_OP | AUTO_REXW | ENC_VM, AMD;
 ]
 "lzcnt" = [
     b"r*v*"       , [0x0F, 0xBD        ], X, AUTO_SIZE | PREF_F3, AMD;
